@@ -26,12 +26,8 @@ Definition cascade_fuel_irrelevant_statement : Prop :=
   forall s id now fuel, (cascade_fuel s <= fuel)%nat ->
     rem_fuel fuel s id now = st_rem s id now.
 
-(** The fact literally names x in its deleteWith array. *)
-Definition dw_names (fact : json) (x : string) : bool :=
-  match jget "deleteWith" fact with
-  | Some (JArr l) => mem_json (JStr x) l
-  | _ => false
-  end.
+(** [State.dw_names fact x]: the fact literally names x in its deleteWith
+    array (the check that the repaired deleteDependencies makes). *)
 
 (** The least set containing [id] and every stored fact that names a member. *)
 Inductive Clo (s : state) (id : string) : string -> Prop :=
@@ -42,18 +38,16 @@ Inductive Clo (s : state) (id : string) : string -> Prop :=
 Definition no_expired (s : state) (now : Z) : Prop :=
   forall id fact, alookup id (st_facts s) = Some fact -> fact_expired fact now = false.
 
-Definition ids_not_varlike (s : state) : Prop :=
-  forall j, alookup j (st_facts s) <> None -> is_var j = false.
-
-(** (2) Exactness for the linear state: when nothing is expired, no storage
-    call fails and no id looks like a variable (D14), removing [id] deletes
-    exactly the closure, from memory and from the storage, and changes
-    nothing else. *)
+(** (2) Exactness for the linear state: when nothing is expired and no
+    storage call fails, removing [id] — ANY id, an id that looks like a
+    pattern variable included (D14, repaired: the candidates that the search
+    for {"deleteWith": [id]} finds are checked literally) — deletes exactly
+    the closure, from memory and from the storage, and changes nothing else. *)
 Definition cascade_exact_linear_statement : Prop :=
   forall s id now s' had,
     st_kind s = Linear -> st_fail s = None ->
     sorted_keys (map fst (st_facts s)) = true -> sorted_keys (map fst (st_store s)) = true ->
-    no_expired s now -> ids_not_varlike s -> is_var id = false ->
+    no_expired s now ->
     st_rem s id now = (s', Ok had) ->
     (had = match alookup id (st_facts s) with Some _ => true | None => false end) /\
     (forall j, Clo s id j -> alookup j (st_facts s') = None /\ alookup j (st_store s') = None) /\
@@ -66,9 +60,13 @@ Definition cascade_ok_linear_statement : Prop :=
     st_kind s = Linear -> st_fail s = None -> no_expired s now ->
     exists s' had, st_rem s id now = (s', Ok had).
 
-(** (3) D14: an id that looks like a variable deletes every fact with a
-    non-empty deleteWith (witness). *)
-Definition varlike_id_refuted_statement : Prop :=
+(** (3) D14 (repaired), on the state of the former witness: "keep" depends on
+    "other", "dep" depends on the variable-looking id "?zzz"; removing the
+    (absent) id "?zzz" deletes "dep" and leaves "keep". *)
+Definition varlike_id_removes_literal_dependents_statement : Prop :=
   exists s s', st_kind s = Linear /\
     alookup "keep" (st_facts s) <> None /\ ~ Clo s "?zzz" "keep" /\
-    st_rem s "?zzz" 100 = (s', Ok false) /\ alookup "keep" (st_facts s') = None.
+    alookup "dep" (st_facts s) <> None /\ Clo s "?zzz" "dep" /\
+    st_rem s "?zzz" 100 = (s', Ok false) /\
+    alookup "keep" (st_facts s') = alookup "keep" (st_facts s) /\
+    alookup "dep" (st_facts s') = None.
